@@ -1,1 +1,105 @@
-// harness module for minrc (see DESIGN.md)
+// Harnesses for src/rc/minrc.rs (child module: sees MinRc{ptr}, MinRcBox{count,inner}).  Property C16.
+//
+// @file crate=incrate replay_cfg=uazu_replay_minrc
+use super::*;
+
+static mut DROPS: u8 = 0;
+struct Payload(u64);
+impl Drop for Payload {
+    fn drop(&mut self) {
+        unsafe { DROPS += 1 };
+    }
+}
+fn drops() -> u8 {
+    unsafe { DROPS }
+}
+
+// A symbolic sequence of clone/drop operations over up to 4 handles: the payload is dropped exactly once, exactly
+// when the last handle goes; it is readable through every live handle until then (CBMC checks every dereference
+// for use-after-free / double free; the leak check confirms the box is released).
+// @verif prop=C16 tier=quick timeout=900 mem=8 unwind=7 leakcheck=1
+// @enc MinRc::new MinRc::clone MinRc::drop MinRc::inner MinRc::rcbox
+// @sym 5 operations, each: clone handle i / drop handle i (i symbolic, live handles only); payload value
+// @bound 5 operations, at most 4 simultaneous handles
+#[kani::proof]
+#[kani::unwind(7)]
+fn m_clone_drop_sequence() {
+    unsafe { DROPS = 0 };
+    let v: u64 = kani::any();
+    let mut h: [Option<MinRc<Payload>>; 4] = [Some(MinRc::new(Payload(v))), None, None, None];
+    let mut live: u8 = 1;
+    let mut step = 0;
+    while step < 5 {
+        let i: usize = kani::any();
+        kani::assume(i < 4);
+        let do_clone: bool = kani::any();
+        if live > 0 {
+            if do_clone {
+                // clone handle i into the first empty place
+                if h[i].is_some() && live < 4 {
+                    let mut c = Some(h[i].as_ref().unwrap().clone());
+                    let mut j = 0;
+                    while j < 4 {
+                        if c.is_some() && h[j].is_none() {
+                            h[j] = c.take();
+                        }
+                        j += 1;
+                    }
+                    live += 1;
+                }
+            } else if h[i].is_some() {
+                assert!(h[i].as_ref().unwrap().inner().0 == v, "C16: payload changed or freed while referenced");
+                h[i] = None;
+                live -= 1;
+            }
+        }
+        assert!(drops() == if live == 0 { 1 } else { 0 }, "C16: payload must be dropped exactly once, when the last reference goes");
+        step += 1;
+    }
+    kani::cover!(live == 0, "all handles dropped");
+    kani::cover!(live == 4, "four handles live");
+    // drop the rest
+    let mut j = 0;
+    while j < 4 {
+        h[j] = None;
+        j += 1;
+    }
+    assert!(drops() == 1, "C16: payload must be dropped exactly once");
+}
+
+// Inductive step on the count word: from an ARBITRARY count, clone adds one (saturating), drop subtracts one,
+// frees exactly at 1 -> 0, and a count locked at usize::MAX never frees (documented leak instead of a double free).
+// @verif prop=C16 tier=quick timeout=600 mem=6 unwind=4
+// @enc MinRc::clone MinRc::drop
+// @sym the reference count: any usize >= 1 (constructed); one clone or one drop
+// @bound single step (inductive over history length)
+#[kani::proof]
+#[kani::unwind(4)]
+fn m_count_step() {
+    unsafe { DROPS = 0 };
+    let a = MinRc::new(Payload(1));
+    let c: usize = kani::any();
+    kani::assume(c >= 1);
+    a.rcbox().count.set(c);
+    if kani::any() {
+        let b = a.clone();
+        assert!(a.rcbox().count.get() == if c == usize::MAX { usize::MAX } else { c + 1 }, "C16: clone must add exactly one reference (saturating)");
+        std::mem::forget(b);
+        std::mem::forget(a);
+    } else {
+        let raw = a.ptr;
+        drop(a);
+        if c == 1 {
+            assert!(drops() == 1, "C16: last reference must free the payload");
+        } else {
+            assert!(drops() == 0, "C16: payload freed while references remain");
+            let cnt = unsafe { raw.as_ref() }.count.get();
+            assert!(cnt == if c == usize::MAX { usize::MAX } else { c - 1 }, "C16: drop must remove exactly one reference (locked at MAX)");
+        }
+    }
+    kani::cover!(c == usize::MAX, "saturated count");
+    kani::cover!(c == 1, "last reference");
+}
+
+#[cfg(uazu_replay_minrc)]
+include!(env!("UAZU_STAKKER_REPLAY_FILE"));
